@@ -450,7 +450,15 @@ def _structure_task(args):
                     res['samples'].append({'value': v, 'style': sty, 'text': txt, 'verdict': 'RFC 8259 text of the value with the style\'s whitespace, for every number N'})
             else:
                 kind = 'nested' if any(isinstance(x, (list, dict)) for x in (v.values() if isinstance(v, dict) else v if isinstance(v, list) else [])) else 'flat' if isinstance(v, (list, dict)) else 'scalar'
-                res['cands'].append({'role': f'structure:{sty}:{kind}', 'text': f'{sty} output of {json.dumps(v)}: {bad}', 'model': {'value': v, 'style': sty}, 'unmodelled': hav})
+                nval = m.eval(N, True).as_long() if m is not None else 7
+                if 'number token' in bad:
+                    # find an N for which the printed number differs: ask the solver for a model of (token != N)
+                    for b in out:
+                        if isinstance(b, Tok) and b.ty in ('u64', 'i64') and not isinstance(b.value, str):
+                            okn, m2 = ex.valid(d, z3.ZeroExt(0, b.value) == N) if b.value.size() == 64 else (True, None)
+                            if m2 is not None: nval = m2.eval(N, True).as_long()
+                res['cands'].append({'role': f'structure:{sty}:{kind}' if 'number token' not in bad else 'structure:number', 'text': f'{sty} output of {json.dumps(v)}: {bad}' + (f' (N = {nval})' if 'number token' in bad else ''),
+                                     'model': {'value': v, 'style': sty, 'N': nval}, 'unmodelled': hav})
     res.update(queries=ex.queries, solver_s=ex.solver_s, unhandled=dict(ex.unhandled), summaries=list(ex.used_summaries), bodies=list(ex.used_bodies))
     return res
 
@@ -477,6 +485,14 @@ def print_structure(ctx):
     from .cli import run_jawk, show
     for c in fam.candidates:
         v = c.model['value']; sty = c.model.get('style', 'OneLine')
+        nval = c.model.get('N', 7)
+        def subst(x):
+            if isinstance(x, bool) or x is None: return x
+            if isinstance(x, int): return nval
+            if isinstance(x, list): return [subst(y) for y in x]
+            if isinstance(x, dict): return {k: subst(y) for k, y in x.items()}
+            return x
+        v = subst(v)
         argv = ['--style', {'OneLine': 'one-line', 'Consise': 'consise', 'Pretty': 'pretty'}[sty]]
         r = run_jawk(ctx, argv, json.dumps(v).encode())
         exp = {'OneLine': json.dumps(v), 'Consise': json.dumps(v, separators=(',', ':')), 'Pretty': json.dumps(v, indent=2)}[sty] + '\n'
